@@ -54,7 +54,10 @@ type input struct {
 	// the same router, "restart" = to a new incarnation of the router (same key).
 	// Chain is what it presents if the listener insists on a full handshake.
 	Resume string `json:"resume,omitempty"`
-	Class  string `json:"class"`
+	// Other (level conc): the key of the second, overlapping dial of the honest host;
+	// the deviating peer holds it and answers that dial honestly
+	Other int    `json:"other,omitempty"`
+	Class string `json:"class"`
 }
 
 // C08Msg is the application message the peers exchange.
@@ -79,6 +82,8 @@ type obs struct {
 	// Resumed: the connection under observation was a TLS session resumption
 	// (tls.ConnectionState.DidResume): no certificate, no proof over the new nonce
 	Resumed bool `json:"resumed,omitempty"`
+	// OtherUp (level conc): the honest host's second, honestly answered dial came up
+	OtherUp bool `json:"other_link_up,omitempty"`
 	absCtx
 }
 
@@ -90,6 +95,12 @@ func coqSuite(s string) string {
 }
 
 func coqCase(in *input, o *obs) string {
+	if in.Level == "conc" {
+		return fmt.Sprintf("CaseConc %s %s %d %d (Hello %s %d) %d (Obs %s %d %s %s %s %s) %s", coqSuite(in.Suite),
+			lib.NatList(in.Holds), in.Expected, in.Other, coqChain(in.Chain, o.absCtx), in.HSKey, in.Msgs,
+			lib.Bool(o.Handshake), o.Dispatched, lib.NatList(o.Stamped), lib.Bool(o.Crash != ""),
+			lib.Bool(!strings.HasPrefix(o.HonestProof, "bad")), lib.Bool(o.Resumed), lib.Bool(o.OtherUp))
+	}
 	role := "RAccept"
 	if in.Role == "dial" {
 		role = fmt.Sprintf("(RDial %d)", in.Expected)
@@ -178,6 +189,9 @@ func run(raw json.RawMessage) lib.Case {
 //	+relayed-proof  the presented signature is an honest holder's own proof for the current nonce
 //	+identity-without-key  accept role over TLS, identity message without the public-key field   (F29)
 func defectTags(in *input) string {
+	if in.Level == "conc" {
+		return "" // the class names the scenario
+	}
 	if len(in.Chain) == 0 || in.Chain[0].Cert == nil {
 		return resumeTag(in)
 	}
@@ -223,6 +237,8 @@ func runHere(in *input) obs {
 		return runUnit(in)
 	case "tls":
 		return runTLS(in)
+	case "conc":
+		return runConcLevel(in)
 	}
 	panic("bad level")
 }
@@ -1056,6 +1072,205 @@ func runDial(in *input, w *world, h *honest) (o obs) {
 		if i == 0 && in.Reident > 0 {
 			oc.Send(w.si(in.Reident-1, network.NewTLSAddress("127.0.0.1:1"), false))
 		}
+	}
+	if h.waitDispatched(in.Msgs, make(chan bool), serveDeadline) == "hang" {
+		o.Crash = "hang: the dialler did not dispatch the replies sent over the link it opened within " + serveDeadline.String()
+	}
+	o.Dispatched = h.count()
+	o.Stamped = w.stamped(h)
+	return o
+}
+
+// ------------------------------------------------------- two overlapping dials
+
+// runConcLevel: the honest host dials key Expected (the link under observation)
+// and key Other at about the same time.  The deviating peer holds Other, runs
+// both end points, holds back its answer on the first link until the ClientHello
+// of the second dial has arrived (no sleeping: the second Send is started when
+// the first ClientHello has arrived), and then presents Chain on the first link;
+// in Chain, nonce "cur" is the first dial's nonce and "other" the second dial's.
+func runConcLevel(in *input) (o obs) {
+	w := newWorld(in.Suite)
+	h, err := w.newHonest(kHonest, in.UnauthOk)
+	if err != nil {
+		return obs{Discard: "honest node: " + err.Error()}
+	}
+	defer h.stop()
+	w.nonces["foreign"] = network.VerifC08MkNonce(w.suite)
+	w.oracle = func(int, []byte) ([]byte, error) { return nil, errHarness{"no relay in the two-dials scenario"} }
+	min, max := tlsVersions(in.TLSVer)
+
+	var mu sync.Mutex // guards w.nonces / w.abs / buildErr between the two listeners
+	var buildErr error
+	firstHello := make(chan struct{})
+	otherHello := make(chan struct{})
+	var firstOnce, otherOnce sync.Once
+	pool := x509.NewCertPool()
+	pool.AddCert(&x509.Certificate{RawSubject: w.nonces["foreign"]})
+
+	listen := func(getCfg func(hello *tls.ClientHelloInfo) (*tls.Config, error)) (net.Listener, *sync.WaitGroup, chan *tls.Conn, error) {
+		ln, err := tls.Listen("tcp", "127.0.0.1:0", &tls.Config{GetConfigForClient: getCfg})
+		if err != nil {
+			return nil, nil, nil, err
+		}
+		var inflight sync.WaitGroup
+		up := make(chan *tls.Conn, 16)
+		go func() {
+			for {
+				c, err := ln.Accept()
+				if err != nil {
+					return
+				}
+				inflight.Add(1)
+				go func(tc *tls.Conn) {
+					defer inflight.Done()
+					tc.SetDeadline(time.Now().Add(handshakeDeadline))
+					if err := tc.Handshake(); err != nil {
+						tc.Close()
+						return
+					}
+					tc.SetDeadline(time.Now().Add(3 * serveDeadline))
+					up <- tc
+				}(c.(*tls.Conn))
+			}
+		}()
+		return ln, &inflight, up, nil
+	}
+
+	// the peer's own end point for key Other: honest
+	lnO, inflightO, upO, err := listen(func(hello *tls.ClientHelloInfo) (*tls.Config, error) {
+		mu.Lock()
+		defer mu.Unlock()
+		otherOnce.Do(func() {
+			w.nonces["other"] = append([]byte{}, hello.ServerName...)
+			close(otherHello)
+		})
+		w2 := *w
+		w2.nonces = map[string][]byte{"cur": append([]byte{}, hello.ServerName...)}
+		der, err := w2.buildCert(honestSpec(in.Other, 1))
+		if err != nil {
+			buildErr = err
+			return nil, err
+		}
+		return &tls.Config{Certificates: []tls.Certificate{{Certificate: [][]byte{der}, PrivateKey: w.tls[1]}},
+			ClientAuth: tls.RequireAnyClientCert, ClientCAs: pool}, nil
+	})
+	if err != nil {
+		return obs{Discard: "listen: " + err.Error()}
+	}
+	defer lnO.Close()
+	// what the honest host reaches when it dials key Expected: the same peer
+	lnF, inflightF, upF, err := listen(func(hello *tls.ClientHelloInfo) (*tls.Config, error) {
+		firstOnce.Do(func() { close(firstHello) })
+		mu.Lock()
+		known := w.nonces["other"] != nil
+		mu.Unlock()
+		if !known {
+			// hold the answer back until the second dial's ClientHello is in; the
+			// honest dial gives up after 1 s, so a host that never overlaps its
+			// dials is answered before that, with a nonce that is merely foreign
+			select {
+			case <-otherHello:
+			case <-time.After(700 * time.Millisecond):
+			}
+		}
+		mu.Lock()
+		defer mu.Unlock()
+		if w.nonces["other"] == nil {
+			w.nonces["other"] = network.VerifC08MkNonce(w.suite)
+			w.abs.NotInterleaved = true
+		}
+		w.setCur([]byte(hello.ServerName))
+		chain, err := w.buildChain(in.Chain)
+		if err != nil {
+			buildErr = err
+			return nil, err
+		}
+		return &tls.Config{Certificates: []tls.Certificate{{Certificate: chain, PrivateKey: w.tls[in.HSKey]}},
+			ClientAuth: tls.RequireAnyClientCert, ClientCAs: pool, MinVersion: min, MaxVersion: max,
+			VerifyPeerCertificate: func(raw [][]byte, _ [][]*x509.Certificate) error {
+				o.HonestProof = w.checkHonestProof(raw, w.nonces["foreign"])
+				return nil
+			}}, nil
+	})
+	if err != nil {
+		return obs{Discard: "listen: " + err.Error()}
+	}
+	defer lnF.Close()
+
+	first := w.si(in.Expected, network.NewTLSAddress(lnF.Addr().String()), false)
+	other := w.si(in.Other, network.NewTLSAddress(lnO.Addr().String()), false)
+	errF := make(chan error, 1)
+	errO := make(chan error, 1)
+	go func() { _, err := h.r.Send(first, &C08Msg{Tag: -3}); errF <- err }()
+	select {
+	case <-firstHello:
+	case <-time.After(handshakeDeadline):
+		return obs{Crash: "hang: the honest host did not start the dial it was asked for"}
+	}
+	go func() { _, err := h.r.Send(other, &C08Msg{Tag: -4}); errO <- err }()
+	var serrF, serrO error
+	for i := 0; i < 2; i++ {
+		select {
+		case serrF = <-errF:
+		case serrO = <-errO:
+		case <-time.After(2 * handshakeDeadline):
+			return obs{Crash: "hang: a Send of the honest host did not return"}
+		}
+	}
+	for _, wg := range []*sync.WaitGroup{inflightF, inflightO} {
+		waited := make(chan bool)
+		go func(wg *sync.WaitGroup) { wg.Wait(); close(waited) }(wg)
+		select {
+		case <-waited:
+		case <-time.After(handshakeDeadline + 5*time.Second):
+		}
+	}
+	mu.Lock()
+	be := buildErr
+	o.absCtx = w.abs
+	mu.Unlock()
+	if be != nil {
+		return obs{Discard: "cannot build chain: " + be.Error()}
+	}
+	// the second, honest link
+	select {
+	case tc := <-upO:
+		defer tc.Close()
+		o.OtherUp = serrO == nil
+	default:
+	}
+	// the link under observation
+	var tc *tls.Conn
+	select {
+	case tc = <-upF:
+	default:
+	}
+	o.Handshake = tc != nil
+	switch {
+	case tc == nil && serrF == nil:
+		o.Reason = "Send reported success although no TLS handshake completed"
+	case tc == nil:
+		o.Reason = clip(serrF.Error())
+	case serrF != nil:
+		o.Reason = "the dialler completed the handshake, then failed: " + clip(serrF.Error())
+	default:
+		o.Reason = "link up"
+	}
+	if tc == nil || serrF != nil {
+		if tc != nil {
+			tc.Close()
+		}
+		o.Dispatched = h.count()
+		o.Stamped = w.stamped(h)
+		return o
+	}
+	defer tc.Close()
+	oc := network.VerifC08WrapConn(keepOpen{tc}, w.suite)
+	oc.Receive()
+	oc.Receive()
+	for i := 0; i < in.Msgs; i++ {
+		oc.Send(&C08Msg{Tag: i})
 	}
 	if h.waitDispatched(in.Msgs, make(chan bool), serveDeadline) == "hang" {
 		o.Crash = "hang: the dialler did not dispatch the replies sent over the link it opened within " + serveDeadline.String()
